@@ -922,6 +922,10 @@ def _check_prompt(ctx):
     r = it.run(f)
     key_default = f.defaults().get("key")
     import ast
+    if isinstance(key_default, (ast.Name, ast.Attribute)):
+        # a named module constant (CONFIRM_KEY = 'y')
+        key_default = f.module.constants.get(
+            ast.unparse(key_default).split(".")[-1], key_default)
     ctx.ob("C17.4", f, isinstance(key_default, ast.Constant) and
            key_default.value == "y",
            "confirm(): default confirmation key is 'y'",
